@@ -394,6 +394,83 @@ theorem sumIsZero_int (atol : K) (h0 : 0 ≤ atol) (h1 : atol < 1) (n : ℤ) :
     linarith
   · rintro rfl; simpa using h0
 
+/-- the array guard accepts iff every row's own sum is within `atol` (sums do not cancel across rows). -/
+theorem guardAll_iff (atol : K) (rows : List (V4 K)) :
+    guardAll atol rows = true ↔ ∀ q ∈ rows, |q.a + q.b + q.c| ≤ atol := by
+  simp only [guardAll, List.all_eq_true, sumIsZero_iff]
+
+/-- `plane4to3` on an array is `plane4to3` on every row, and one offending row rejects the array. -/
+theorem plane4to3Arr_eq_mapM (atol : K) (rows : List (V4 K)) :
+    plane4to3Arr atol rows = rows.mapM (plane4to3 atol) := by
+  induction rows with
+  | nil => simp [plane4to3Arr, guardAll]; rfl
+  | cons q rows ih =>
+    rw [List.mapM_cons, ← ih]
+    unfold plane4to3Arr plane4to3 guardAll
+    simp only [List.all_cons]
+    by_cases h1 : sumIsZero atol (q.a + q.b + q.c) = true <;>
+      by_cases h2 : (rows.all fun q => sumIsZero atol (q.a + q.b + q.c)) = true <;>
+      simp only [h1, h2, Bool.and_self, Bool.and_true, Bool.and_false, Bool.true_and, Bool.false_and, if_true, if_false,
+        bind, Except.bind, pure, Except.pure, List.map_cons, Bool.false_eq_true, Bool.not_eq_true]
+
+theorem vector4to3Arr_eq_mapM (atol : K) (rows : List (V4 K)) :
+    vector4to3Arr atol rows = rows.mapM (vector4to3 atol) := by
+  induction rows with
+  | nil => simp [vector4to3Arr, guardAll]; rfl
+  | cons q rows ih =>
+    rw [List.mapM_cons, ← ih]
+    unfold vector4to3Arr vector4to3 guardAll
+    simp only [List.all_cons]
+    by_cases h1 : sumIsZero atol (q.a + q.b + q.c) = true <;>
+      by_cases h2 : (rows.all fun q => sumIsZero atol (q.a + q.b + q.c)) = true <;>
+      simp only [h1, h2, Bool.and_self, Bool.and_true, Bool.and_false, Bool.true_and, Bool.false_and, if_true, if_false,
+        bind, Except.bind, pure, Except.pure, List.map_cons, Bool.false_eq_true, Bool.not_eq_true]
+
+/-- integer arrays, `0 ≤ atol < 1`: accepted iff `h + k + i = 0` in EVERY row; then no row loses anything
+    (`plane3to4` of the result row is the row). -/
+theorem plane4to3Arr_int (atol : K) (h0 : 0 ≤ atol) (h1 : atol < 1) (rows : List (ℤ × ℤ × ℤ × ℤ)) :
+    let rowsK : List (V4 K) := rows.map fun r => ⟨(r.1 : K), (r.2.1 : K), (r.2.2.1 : K), (r.2.2.2 : K)⟩
+    ((∃ out, plane4to3Arr atol rowsK = .ok out) ↔ ∀ r ∈ rows, r.1 + r.2.1 + r.2.2.1 = 0) ∧
+    (∀ out, plane4to3Arr atol rowsK = .ok out → out.map plane3to4 = rowsK) := by
+  intro rowsK
+  have hg : guardAll atol rowsK = true ↔ ∀ r ∈ rows, r.1 + r.2.1 + r.2.2.1 = 0 := by
+    simp only [guardAll, List.all_eq_true, rowsK, List.mem_map, forall_exists_index, and_imp,
+      forall_apply_eq_imp_iff₂]
+    constructor
+    · intro h r hr
+      have := h r hr
+      rw [show ((r.1 : K) + (r.2.1 : K) + (r.2.2.1 : K)) = ((r.1 + r.2.1 + r.2.2.1 : ℤ) : K) by push_cast; ring] at this
+      exact (sumIsZero_int atol h0 h1 _).1 this
+    · intro h r hr
+      rw [show ((r.1 : K) + (r.2.1 : K) + (r.2.2.1 : K)) = ((r.1 + r.2.1 + r.2.2.1 : ℤ) : K) by push_cast; ring]
+      exact (sumIsZero_int atol h0 h1 _).2 (h r hr)
+  constructor
+  · unfold plane4to3Arr
+    constructor
+    · rintro ⟨out, ho⟩
+      by_cases hga : guardAll atol rowsK = true
+      · exact hg.1 hga
+      · simp [hga] at ho
+    · intro h
+      exact ⟨_, by rw [if_pos (hg.2 h)]⟩
+  · intro out ho
+    unfold plane4to3Arr at ho
+    by_cases hga : guardAll atol rowsK = true
+    · rw [if_pos hga] at ho
+      injection ho with ho
+      subst ho
+      have hz := hg.1 hga
+      simp only [rowsK, List.map_map]
+      apply List.map_congr_left
+      intro r hr
+      have := hz r hr
+      simp only [Function.comp, plane3to4, V4.mk.injEq, true_and, and_true]
+      have h3 : (r.2.2.1 : K) = -((r.1 : K) + (r.2.1 : K)) := by
+        have : r.2.2.1 = -(r.1 + r.2.1) := by omega
+        rw [this]; push_cast; ring
+      exact h3.symm
+    · simp [hga] at ho
+
 theorem plane34_roundtrip (atol : K) (hat : 0 ≤ atol) :
     (∀ p : V3 K, plane4to3 atol (plane3to4 p) = .ok p) ∧
     (∀ (q : V4 K) (p : V3 K), plane4to3 atol q = .ok p → q.a + q.b + q.c = 0 → plane3to4 p = q) := by
